@@ -12,11 +12,12 @@ import (
 // every thread that fires one of the bubble's timers, and with several Ps two threads occasionally use it
 // at the same time, which corrupts the detector's state and kills the process with SIGSEGV inside the tsan
 // runtime (seen about once per 20 000 bubbles of this check). The happens-before analysis of the race
-// detector does not depend on real parallelism. The child processes of the race sub-properties (one
-// bubble each) keep the default.
+// detector does not depend on real parallelism. The driver exports GOMAXPROCS=1 as well (check.json
+// "gomaxprocs"); the child processes of the race sub-properties inherit it, and a child that dies with
+// SIGSEGV anyway is repeated (child.go). D9 and D10 are still reported with one P.
 func TestProps(t *testing.T) {
 	defer runtime.GOMAXPROCS(runtime.GOMAXPROCS(1))
-	harness.Main(t, "C17", GetSCTs, Distributor, Proxy, Weights)
+	harness.Main(t, "C17", GetSCTs, Distributor, Proxy, Weights, GetSCTsIsolated, DistributorIsolated)
 }
 
 // TestChild executes one case of a race sub-property in a process of its own (see child.go).
